@@ -1076,6 +1076,17 @@ impl TypeLayout {
         Some(f)
     }
 
+    /// Is this the type of `[]`, or of a list that holds a `[]` at some depth? (see `assignment_no_type`)
+    pub fn has_list_without_element_type(&self) -> bool {
+        match self.disregard_distractors(true) {
+            Self::List(ListType::Mixed(types)) => {
+                types.is_empty() || types.iter().any(|ty| ty.has_list_without_element_type())
+            }
+            Self::List(ListType::Open(ty)) => ty.has_list_without_element_type(),
+            _ => false,
+        }
+    }
+
     pub fn get_property_type<'a>(
         &'a self,
         property_name: &str,
